@@ -49,6 +49,7 @@ const (
 	kStart
 	kPend
 	kArrive
+	kTimer
 )
 
 // hbEvent records one event of the running thread on object o (nil: thread-local event).
